@@ -12,8 +12,14 @@ Union/Intersect/Sub/Xor is executed by the harness (go/cmd/c05), which appends t
                 harness adds up to ~60 candidates taken from the RESULT itself (edge midpoints pushed to both sides,
                 vertex averages) so that area only the result has is judged; about a fifth of these calls have a
                 combined region that is PROVABLY empty (`EO.emptyCert`, `C05.emptyCert_sound`: separated operands for
-                Intersect, identical operands for Sub/Xor, a covering rectangle for Sub, an operand without edges) and
-                for them the result must be empty (`EO.validateGeneral`); a call with no judged point is `unjudged`
+                Intersect — by an axis-parallel line or by the line through one of their edges, i.e. also disjoint
+                convex polygons with OVERLAPPING boxes, where the sweep decides —, identical operands for Sub/Xor, a
+                covering rectangle for Sub, an operand without edges) and for them the result must be empty
+                (`EO.validateGeneral`); another share is disjoint / nested with overlapping boxes in ways only the exact
+                general judgement `EO.noContact` / `EO.containedIn` recognises (interleaved combs, a triangle in the
+                notch of an L, a polygon in the hole of a ring, a polygon inside another one for Sub): the result must be
+                empty too, but the soundness of that judgement is stated, not proved; three quarters of the remaining
+                pairs have crossing boundaries; a call with no judged point is `unjudged`
                 and is not counted as validated;
   biglattice /  LARGE inputs (a few dozen calls per quick run): 66-110 lattice rows / columns listed in descending,
   biggeneral    ascending or shuffled order, staircases and combs with 66-150 steps on [0,N]^2, N = 72..150 (exhaustive
@@ -44,7 +50,7 @@ from concurrent.futures import ThreadPoolExecutor
 DRIVER = "drv_c05"
 N_CALLS = {
     "lattice": {"quick": 60000, "thorough": 2400000},
-    "general": {"quick": 6000, "thorough": 200000},
+    "general": {"quick": 9000, "thorough": 240000},
     # LARGE inputs (deep scan-beam tree / long active edge table); each call costs 0.1-1.5 s of oracle time
     "biglattice": {"quick": 64, "thorough": 3200},
     "biggeneral": {"quick": 48, "thorough": 4000},
@@ -92,6 +98,10 @@ def _summarise(area, tag, triples):
             continue
         if verdict is not None and verdict.startswith("valid "):
             j = int(verdict.split()[1])
+            if verdict.endswith("empty-judged"):
+                S["empty_judged"] = S.get("empty_judged", 0) + 1
+                if out.split(" X ")[0] != "R 0":
+                    S["empty_with_contours"] = S.get("empty_with_contours", 0) + 1
             if verdict.endswith("empty-certified"):
                 S["empty_certified"] = S.get("empty_certified", 0) + 1
                 if out.split(" X ")[0] != "R 0":
@@ -206,7 +216,7 @@ def run(ctx):
         return _replay(ctx)
 
     if ctx.tier == "quick":
-        shards = {"lattice": 8, "general": 16, "biglattice": 8, "biggeneral": 8, "chain": 4}
+        shards = {"lattice": 8, "general": 24, "biglattice": 8, "biggeneral": 8, "chain": 4}
     else:
         shards = {"lattice": 32, "general": 96, "biglattice": 32, "biggeneral": 32, "chain": 32}
     jobs = []
@@ -288,7 +298,7 @@ def run(ctx):
         if S["area"].startswith("big"):
             counters["programs_large"] = counters.get("programs_large", 0) + S["programs"]
         counters["empty_results"] += S["empty_results"]
-        for k in ("unjudged", "empty_certified", "empty_with_contours"):
+        for k in ("unjudged", "empty_certified", "empty_judged", "empty_with_contours"):
             counters[k] = counters.get(k, 0) + S.get(k, 0)
         _report(ctx, S, counters)
     ctx.extra["wall_harness_and_streams_s"] = round(time.time() - t1, 1)
@@ -300,6 +310,7 @@ def run(ctx):
     ctx.extra["empty_results"] = counters["empty_results"]
     ctx.extra["calls_unjudged_not_counted"] = counters.get("unjudged", 0)
     ctx.extra["sampled_calls_with_certified_empty_region"] = counters.get("empty_certified", 0)
+    ctx.extra["sampled_calls_with_judged_empty_region_noContact_containedIn"] = counters.get("empty_judged", 0)
     ctx.extra["certified_empty_results_that_had_contours"] = counters.get("empty_with_contours", 0)
     ctx.extra["violations_not_listed"] = counters["suppressed"]
     ctx.extra["known_finding_inputs_hit"] = counters.get("known", 0)
